@@ -17,10 +17,23 @@ func description(b []byte) ([]byte, error) {
 		return b, err
 	}
 
-	b = bytes.TrimLeft(b, "\r\n")
-	b = bytes.TrimRight(b, "\r\n\t ")
-
 	lines := bytes.Split(b, []byte{'\n'})
+
+	// A line of blanks is an empty line: trailing blanks do not change the text.
+	for i := range lines {
+		if len(bytes.Trim(lines[i], " \t")) == 0 {
+			lines[i] = lines[i][:0]
+		}
+	}
+	for len(lines) != 0 && len(lines[0]) == 0 {
+		lines = lines[1:]
+	}
+	for len(lines) != 0 && len(lines[len(lines)-1]) == 0 {
+		lines = lines[:len(lines)-1]
+	}
+	if len(lines) != 0 {
+		lines[len(lines)-1] = bytes.TrimRight(lines[len(lines)-1], "\t ")
+	}
 
 	prefix := longestWhitespacePrefix(lines)
 	for i := 0; i < len(lines); i++ {
